@@ -145,6 +145,11 @@ type OblResult struct {
 	File    string        `json:"file,omitempty"`
 	Expect  string        `json:"expect,omitempty"`
 	Results []QueryResult `json:"-"`
+	ReplayTest     string `json:"replay_test,omitempty"`      // generated Go test (full: panic + clause)
+	ReplayTestLite string `json:"replay_test_lite,omitempty"` // generated Go test (panic only)
+	ReplayPkg      string `json:"replay_pkg,omitempty"`       // package directory relative to the repository root
+	ReplayNote     string `json:"replay_note,omitempty"`
+	FailedObl      *Obligation `json:"-"`
 }
 
 type queryJob struct {
@@ -390,6 +395,7 @@ func (e *Engine) Discharge(obls []*Obligation, outDir string, timeout time.Durat
 					if r.Status != "failed" {
 						r.Status = "failed"
 						r.Model = q.Model
+						r.FailedObl = o
 						r.File = q.File
 						r.Detail = "counterexample from " + q.Backend
 						if o.Pos != "" {
